@@ -16,6 +16,10 @@
      NumericProfiler             346-375    [profile_ord] with [with_order = true]
      VarcharProfiler             378-393    [profile_text]
      DateProfiler                396-417    [profile_ord] with [with_order = false]
+   and of /repo/orso/dataframe.py:
+     DataFrame.append            136-143    [FAppend] in [fstep]: the row goes to the end of the frame's rows
+     DataFrame.profile           338-342    [FProfile] in [fstep]: from_dataframe of the rows the frame holds NOW
+                                            (the frame has no other state the profile could depend on)
 
    A column is a [list (option A)] ([None] = null).  Numbers are exact fixed-point
    integers ([Z], value = z / scale; scale 1 for INTEGER and for instants given as epoch
@@ -231,6 +235,55 @@ Arguments kmv_of {A}. Arguments ot_step {A}. Arguments order_transitions {A}. Ar
 Arguments profile_ord {A}. Arguments add_mfv {A}. Arguments add {A}. Arguments estimate_cardinality {A E}.
 Arguments profile_frame {A} eqb E hist_merge {X} prof c.
 
+(* ---------- a frame over time: DataFrame.append / DataFrame.profile ---------- *)
+(* The state of a DataFrame, as far as profiling goes, is the list of its rows and nothing else.
+   [FAppend x] is DataFrame.append (self._rows.append(row)); [FProfile] is the .profile property,
+   which reads the rows the frame holds at that moment.  [frun] runs a program of such operations
+   on one frame object and returns what each .profile read returned, in order. *)
+Inductive fop (X : Type) : Type := FAppend (x : X) | FProfile.
+Arguments FAppend {X}. Arguments FProfile {X}.
+
+Section Session.
+Variables X P : Type.
+Variable profile_of : list X -> P.      (* TableProfile.from_dataframe(...).column(c) of a frame holding these rows *)
+
+Definition fstep (rows : list X) (op : fop X) : list X * list P :=
+  match op with
+  | FAppend x => (rows ++ [x], [])
+  | FProfile => (rows, [profile_of rows])
+  end.
+
+Fixpoint frun (rows : list X) (ops : list (fop X)) : list P :=
+  match ops with
+  | [] => []
+  | op :: r => snd (fstep rows op) ++ frun (fst (fstep rows op)) r
+  end.
+End Session.
+Arguments fstep {X P}. Arguments frun {X P}.
+
+(* the rows a program appends *)
+Definition appended {X} (ops : list (fop X)) : list X :=
+  flat_map (fun op => match op with FAppend x => [x] | FProfile => [] end) ops.
+Definition reads_in {X} (ops : list (fop X)) : nat :=
+  length (filter (fun op => match op with FProfile => true | _ => false end) ops).
+
+(* The session the harness runs on ONE frame object that already holds the first [pos] rows of the
+   column: for every read position k in [reads] (non-decreasing, pos <= k <= rows of the column)
+   append rows up to k and read .profile; at the end append the remaining rows and read .profile.
+   [rest] = the rows not yet in the frame. *)
+Fixpoint session_ops {X} (pos : nat) (reads : list nat) (rest : list X) : list (fop X) :=
+  match reads with
+  | [] => map FAppend rest ++ [FProfile]
+  | k :: r => map FAppend (firstn (k - pos) rest) ++ FProfile :: session_ops k r (skipn (k - pos) rest)
+  end.
+
+(* read positions are non-decreasing from [pos] and stay within the column *)
+Fixpoint reads_ok (pos : nat) (reads : list nat) (n : nat) : Prop :=
+  match reads with
+  | [] => (pos <= n)%nat
+  | k :: r => (pos <= k)%nat /\ reads_ok k r n
+  end.
+
 (* ---------- numbers ---------- *)
 (* int(x) of the fixed-point number z / scale: truncation toward zero *)
 Definition trunc_z (scale z : Z) : Z := Z.quot z scale.
@@ -370,9 +423,28 @@ Record obs (V : Type) := mko {
   o_whole : profile V N;
   o_cut : option (nat * profile V N);
   o_quads : list (nat * (Z * Z * option Z * option Z));   (* run-length encoded, in cut order *)
-  o_estimate : Z
+  o_estimate : Z;
+  (* the session on one frame object: (rows in the frame, what .profile returned then - None: no
+     column profile) for every read before the last *)
+  o_session : list (N * option (profile V N));   (* row counts as N: frames above the batch size *)
+  (* the last read, when the frame holds the whole column; None = the harness found it identical,
+     field by field, to [o_whole] (the profile of a frame built with all rows at once) *)
+  o_final : option (profile V N)
 }.
 Arguments mko {V}. Arguments o_whole {V}. Arguments o_cut {V}. Arguments o_quads {V}. Arguments o_estimate {V}.
+Arguments o_session {V}. Arguments o_final {V}.
+
+(* profile / append / profile ... on one frame object, replayed in the model: every read before
+   the last agrees with the observed one (histogram: empty or not, as for sums - the harness has
+   numpy's bins for the whole column only), the last read agrees with the observed one in full. *)
+Definition session_check {X V} (ev : V -> V -> bool) (big : bool)
+           (frame : list X -> option (profile V N)) (c : list X) (o : obs V) : bool :=
+  let reads := map (fun r => N.to_nat (fst r)) (o_session o) in
+  let k0 := hd (length c) reads in
+  let got := frun frame (firstn k0 c) (session_ops k0 reads (skipn k0 c)) in
+  list_eqb (opt_eqb (sum_eqb ev)) (removelast got) (map snd (o_session o)) &&
+  opt_eqb (if big then sum_eqb ev else profile_eqb ev) (last got None)
+          (Some (match o_final o with Some g => g | None => o_whole o end)).
 
 Definition check_common {X V} (ev : V -> V -> bool) (big : bool) (prof : list X -> profile V N)
            (addf : profile V N -> profile V N -> profile V N)
@@ -388,8 +460,15 @@ Definition check_common {X V} (ev : V -> V -> bool) (big : bool) (prof : list X 
       | Some (k, s) => sum_eqb ev (addf (prof (firstn k c)) (prof (skipn k c))) s
       end &&
       (if big then true
-       else list_eqb quad_eqb (cut_quads prof addf c) (flat_map (fun r => repeat (snd r) (fst r)) (o_quads o)))
+       else list_eqb quad_eqb (cut_quads prof addf c) (flat_map (fun r => repeat (snd r) (fst r)) (o_quads o))) &&
+      session_check ev big frame c o
   end.
+
+(* what the model's frame returns at each read of the observed session *)
+Definition session_show {X V} (frame : list X -> option (profile V N)) (c : list X) (o : obs V) :=
+  let reads := map (fun r => N.to_nat (fst r)) (o_session o) in
+  let k0 := hd (length c) reads in
+  frun frame (firstn k0 c) (session_ops k0 reads (skipn k0 c)).
 
 Definition hist_ok {X} (sample : list X) (h : list (N * Z)) : bool :=
   is_nil sample || Nat.eqb (length h) DISTOGRAM_BIN_COUNT.
@@ -422,7 +501,8 @@ Definition c15_show_ord (k : ord_case) :=
   let '(big, c, prof, addf, np_hist, o) := ord_parts k in
   (profile_frame Z.eqb N dummy_merge prof c,
    match o_cut o with Some (n, _) => Some (addf (prof (firstn n c)) (prof (skipn n c))) | None => None end,
-   if big then [] else cut_quads prof addf c).
+   if big then [] else cut_quads prof addf c,
+   session_show (profile_frame Z.eqb N dummy_merge prof) c o).
 
 (* text *)
 Definition text_case : Type :=
@@ -444,7 +524,8 @@ Definition c15_show_text (k : text_case) :=
   let '(big, c, prof, addf, o) := text_parts k in
   (profile_frame text_eqb N dummy_merge prof c,
    match o_cut o with Some (n, _) => Some (addf (prof (firstn n c)) (prof (skipn n c))) | None => None end,
-   if big then [] else cut_quads prof addf c).
+   if big then [] else cut_quads prof addf c,
+   session_show (profile_frame text_eqb N dummy_merge prof) c o).
 
 (* booleans *)
 Definition bool_case : Type := list (option bool) * nat * obs bool.
@@ -457,7 +538,8 @@ Definition c15_show_bool (k : bool_case) :=
   let '(c0, rep, o) := k in
   let c := expand rep c0 in
   (profile_frame Bool.eqb N dummy_merge (@profile_bool N) c,
-   if Nat.eqb rep 1 then cut_quads (@profile_bool N) (add Bool.eqb N dummy_merge) c else []).
+   if Nat.eqb rep 1 then cut_quads (@profile_bool N) (add Bool.eqb N dummy_merge) c else [],
+   session_show (profile_frame Bool.eqb N dummy_merge (@profile_bool N)) c o).
 
 (* ARRAY / STRUCT (cells null or not) and untyped columns (cells None / NaN / a value);
    the listed values are of no type: unit *)
@@ -476,4 +558,5 @@ Definition c15_show_plain (k : plain_case) :=
   let '(untyped, c0, rep, o) := k in
   let c := expand rep c0 in
   (profile_frame unit_eqb N dummy_merge (plain_prof untyped) c,
-   if Nat.eqb rep 1 then cut_quads (plain_prof untyped) (add unit_eqb N dummy_merge) c else []).
+   if Nat.eqb rep 1 then cut_quads (plain_prof untyped) (add unit_eqb N dummy_merge) c else [],
+   session_show (profile_frame unit_eqb N dummy_merge (plain_prof untyped)) c o).
